@@ -42,7 +42,11 @@ atexit.register(_cleanup)
 
 def build_impl(extra_cflags='', stage2=False):
     """Copy /repo's working tree (tracked + untracked sources, no build products) to a scratch
-    directory and build it there with the guard on.  Returns the scratch path."""
+    directory and build it there with the guard on.  Returns the scratch path.
+    VERIF_STAGE=k: return the directory of the k-th stage (chibicc compiled by the (k-1)-th);
+    VERIF_PREBUILT=dir: use that already built directory (set by the C12 check for its sub-runs)."""
+    if os.environ.get('VERIF_PREBUILT') and not extra_cflags:
+        return os.environ['VERIF_PREBUILT']
     d = scratch_dir()
     dst = os.path.join(d, 'src')
     rc, out, err = sh(['rsync', '-a', '--exclude', '.git', '--exclude', '*.o', '--exclude', '/chibicc',
@@ -53,7 +57,25 @@ def build_impl(extra_cflags='', stage2=False):
     rc, out, err = sh(['make', '-j16', 'chibicc', 'CFLAGS=' + cflags], cwd=dst, timeout=300)
     if rc != 0:
         raise BuildFailed(out + err)
+    stage = int(os.environ.get('VERIF_STAGE', '1'))
+    for k in range(2, stage + 1):
+        dst = build_next_stage(dst, k)
     return dst
+
+def build_next_stage(prev, k):
+    """compile the sources in directory `prev` (which holds a working ./chibicc) with that chibicc, guard on;
+    returns a new directory holding the sources, the objects and the stage-k chibicc"""
+    nxt = os.path.join(os.path.dirname(prev), 'stage%d' % k)
+    rc, out, err = sh(['rsync', '-a', '--exclude', '*.o', '--exclude', '/chibicc', prev + '/', nxt + '/'])
+    if rc != 0: raise RuntimeError('rsync failed: ' + err)
+    srcs = sorted(f for f in os.listdir(nxt) if f.endswith('.c'))
+    def comp(f):
+        return sh([os.path.join(prev, 'chibicc'), '-D' + GUARD, '-c', '-o', os.path.join(nxt, f[:-2] + '.o'), os.path.join(nxt, f)], cwd=nxt, timeout=300)
+    for f, (rc, out, err) in zip(srcs, pmap(comp, srcs)):
+        if rc != 0: raise BuildFailed('stage %d: chibicc cannot compile %s: %s' % (k, f, (out + err)[-600:]))
+    rc, out, err = sh(['gcc', '-o', os.path.join(nxt, 'chibicc')] + [os.path.join(nxt, f[:-2] + '.o') for f in srcs], timeout=120)
+    if rc != 0: raise BuildFailed('stage %d link: %s' % (k, err[-600:]))
+    return nxt
 
 def link_harness(src, harness_c, out):
     """link a harness against every object of the scratch build (main() of main.c renamed)"""
@@ -105,15 +127,16 @@ def write_evidence(pid, tier, level, coverage, wall_s, violations, assumptions):
     os.makedirs(os.path.join(VERIF, 'evidence'), exist_ok=True)
     ev = dict(property_id=pid, tier=tier, seed=seed(), level=level, coverage=coverage,
               assumptions=assumptions, wall_s=round(wall_s, 2), violations=violations)
-    p = os.path.join(VERIF, 'evidence', pid + '.json')
+    p = os.path.join(VERIF, 'evidence', pid + os.environ.get('VERIF_SUFFIX', '') + '.json')
+    if os.environ.get('VERIF_SUFFIX'): p = os.path.join(VERIF, 'replays', 'sub', pid + os.environ['VERIF_SUFFIX'] + '.json'); os.makedirs(os.path.dirname(p), exist_ok=True)
     json.dump(ev, open(p, 'w'), indent=1, sort_keys=True)
     return p
 
 def reset_replays(pid):
-    shutil.rmtree(os.path.join(VERIF, 'replays', pid), ignore_errors=True)
+    shutil.rmtree(os.path.join(VERIF, 'replays', pid + os.environ.get('VERIF_SUFFIX', '')), ignore_errors=True)
 
 def write_replay(pid, name, obj):
-    d = os.path.join(VERIF, 'replays', pid)
+    d = os.path.join(VERIF, 'replays', pid + os.environ.get('VERIF_SUFFIX', ''))
     os.makedirs(d, exist_ok=True)
     p = os.path.join(d, name)
     if isinstance(obj, (dict, list)):
@@ -205,6 +228,8 @@ class Run:
         return True
 
     def check_proofs(self, deps=()):
+        if os.environ.get('VERIF_SKIP_PROOFS'):      # sub-run of the C12 check: the proofs do not depend on the binary under test
+            self.cq = dict(ok=True, closed=len(self.theorems), axioms=[], log='skipped (sub-run)'); return True
         self.cq = coq_check_properties(self.pid, deps=deps)
         if not self.cq['ok']:
             self.proof_broken.append('Properties_%s.v does not check: %s' % (self.pid, coq_errors(self.cq['log']) or self.cq['log'][-600:]))
